@@ -70,6 +70,13 @@ def gen_tokens(rng, rows, cols, n, uni):
             else:
                 toks.append(rng.choice([u'\x1b7', u'\x1b8', u'\x1bM', u'\x1b>', u'\x1b<', u'\x1b=', u'\x1b(A', u'\x1b)0',
                                         u'\x1b#8', u'\x1b(B']))
+        elif uni and rng.random() < 0.25:
+            # parameters written with decimal digits that are not ASCII (Arabic-Indic, fullwidth, Devanagari): for the
+            # terminal they are not digits at all, so the sequence ends at the first of them and the rest is printed
+            dg = rng.choice(u'\u0663\uff13\u096b\u0660')
+            pre = rng.choice([u'', u'1;', u'0;31;', u'?'])
+            toks.append(u'\x1b[' + pre + dg)
+            toks.append(rng.choice([u'm', u';1m', u'H', dg + u'm', u'A']))
         elif rng.random() < 0.5:
             # a control sequence cut short by an unusual final byte (CAN and SUB abort sequences on a VT100)
             pre = rng.choice([u'', u'5', u'5;', u'1;2', u'1;2;', u'7;8;9', u'?', u'?25', u'0', u'99999;'])
@@ -113,8 +120,8 @@ def generate(rng):
 UNKNOWN_FORMS = [u'\x1bz', u'\x1b[5n', u'\x1b[;', u'\x1b[1;z', u'\x1b[1;2z', u'\x1b[1;2;z', u'\x1b[1;2;3z',
                  u'\x1b[?z', u'\x1b[?1z', u'\x1b\x1b', u'\x1b[\x1b', u'\x1b(z', u'\x1b[1\r']
 # any CSI prefix followed by ONE arbitrary final character completes (known handler or default transition to ground state)
-_CSI_ANY = re.compile(u'^\x1b\\[\\??(?:\\d+(?:;\\d+)*)?;?[^0-9;]$', re.DOTALL)
-_FORMS = re.compile(u'^\x1b(?:\\[\\d*[ABCDJKHmqr]|\\[\\d+;\\d+[Hfrmq]|\\[\\d+(?:;\\d+)+[mq]|\\[\\?\\d+[hl]|\\[\\d+l|[78M><=]|[()][AB012]|#8)$')
+_CSI_ANY = re.compile(u'^\x1b\\[\\??(?:\\d+(?:;\\d+)*)?;?[^0-9;]$', re.DOTALL | re.ASCII)
+_FORMS = re.compile(u'^\x1b(?:\\[\\d*[ABCDJKHmqr]|\\[\\d+;\\d+[Hfrmq]|\\[\\d+(?:;\\d+)+[mq]|\\[\\?\\d+[hl]|\\[\\d+l|[78M><=]|[()][AB012]|#8)$', re.ASCII)
 
 
 def valid_token(tk):
